@@ -156,8 +156,10 @@ def switch_commands(ctx, repo, rule_idle, rule_one):
 # ------------------------------------------------------------------------------------------------ C12 scan
 DEVICE_CLASSES = ("GeckoPump", "GeckoBlower", "GeckoLight", "GeckoSensor", "GeckoBinarySensor", "GeckoErrorSensor", "GeckoSwitch")
 
-TABLE_DEVICES = ["P1", "P2", "P3", "P4", "P5", "BL", "Waterfall", "LI", "L120", "O3", "CP"]
-TABLE_DEMANDS = ["UdP1", "UdP2", "UdP3", "UdP4", "UdP5", "UdBL", "UdWaterfall", "UdLI", "UdL120", "UdPumpTime"]
+# device / demand order of a shipped log table (inyt-log-63): note L120 (a demand, but no DEVICES row) sits
+# between the pumps and Waterfall, and LI comes last
+TABLE_DEVICES = ["P1", "P2", "P3", "P4", "P5", "BL", "CP", "O3", "L120", "MSTR_HEATER", "SLV_HEATER", "Waterfall", "LockMode", "DealerLockStatus", "LI"]
+TABLE_DEMANDS = ["UdP1", "UdP2", "UdP3", "UdP4", "UdP5", "UdPumpTime", "UdBL", "UdL120", "UdWaterfall", "UdLI", "UdLightTime"]
 WIRINGS = {
     "typical": {"Out1": "P1H", "Out1A": "P1L", "Out2": "P2H", "Out3": "NA", "Out4": "BL", "Out5": "Waterfall", "OutLi": "LI", "Out6": "L120", "Out7": "O3", "HeatPumpFuse": "Line1"},
     "nothing": {"Out1": "NA", "Out2": "NA", "OutLi": "NA"},
@@ -175,7 +177,7 @@ def _scan(repo, cname, fname, wiring, demands):
     for out, label in wiring.items():
         accs[out] = accessor(rec, out, label, "Enum", ["NA", label])
     for ud in demands:
-        accs[ud] = accessor(rec, ud, "OFF", "Enum", ["OFF", "LO", "HI"])
+        accs[ud] = accessor(rec, ud, "OFF", "Enum", ["OFF", f"{ud}-ON"])
     DEV = class_const(repo, "GeckoConstants", "DEVICES")
     for row in DEV.values():
         accs.setdefault(row[2], accessor(rec, row[2], "OFF"))
@@ -236,11 +238,11 @@ def _oracle(repo, wiring, demands, with_demand_for_all=False):
             continue
         row = DEV[d]
         if row[3] == P:
-            out["pumps"].append(("GeckoPump", d, row, {"demand": ud, "options": ["OFF", "LO", "HI"]}))
+            out["pumps"].append(("GeckoPump", d, row, {"demand": ud, "options": ["OFF", f"{ud}-ON"]}))
         elif row[3] == B:
-            out["blowers"].append(("GeckoBlower", d, row, {"demand": ud, "options": ["OFF", "LO", "HI"]} if with_demand_for_all else None))
+            out["blowers"].append(("GeckoBlower", d, row, {"demand": ud, "options": ["OFF", f"{ud}-ON"]} if with_demand_for_all else None))
         elif row[3] == L:
-            out["lights"].append(("GeckoLight", d, row, {"demand": ud, "options": ["OFF", "LO", "HI"]} if with_demand_for_all else None))
+            out["lights"].append(("GeckoLight", d, row, {"demand": ud, "options": ["OFF", f"{ud}-ON"]} if with_demand_for_all else None))
     return out
 
 
